@@ -92,7 +92,7 @@ func c01R1(c *Ctx) {
 				for _, st := range op.Sel.States {
 					if loadedField(st.Chan) == chF && st.Dir == types.RecvOnly {
 						nRecv++
-						c.verdict(strings.HasSuffix(c.fnName(fn), "executableWorkflow).Execute"), rule+"d", fmt.Sprintf("recv@%s#%d", c.fnName(fn), nRecv), c.instrPos(op.In),
+						c.verdict(c.isExecuteOrOwned(fn), rule+"d", fmt.Sprintf("recv@%s#%d", c.fnName(fn), nRecv), c.instrPos(op.In),
 							"receive is a select case in Execute", "outputDataChannel is received outside Execute")
 					}
 				}
@@ -881,7 +881,7 @@ func c01R8(c *Ctx) {
 		}
 		// a helper with a single call site (e.g. the deferred "check and unlock" of a handler, turned into a method): its
 		// effect on the locks is part of its caller's, whose own balance obligation covers the pair
-		if site := ownerSite[fn]; site != nil {
+		if site := ownerSite[fn]; site != nil && !isGoSite(site) {
 			caller := site.Parent()
 			if _, cbad := ub[caller]; !cbad || latentUnbalanced[c.fnName(caller)] != "" {
 				c.ok(rule, key, c.pos(fn.Pos()), "changes the lock state on behalf of its only caller "+c.fnName(caller)+", which is balanced as a whole: "+u, true)
@@ -1035,4 +1035,14 @@ func (c *Ctx) cancelsRun(in ssa.Instruction) bool {
 // C01.R11 = C03.R4: Execute returns an output or an error, never neither.
 func c01R11(c *Ctx) {
 	shareRule(c, "C03.R4", "C01.R11", c03R4, "over Execute and handleOutput there is exactly one success return, and every other return carries a provably non-nil error: a run never ends with neither an output nor an error")
+}
+
+// isExecuteOrOwned: fn is an implementation of ExecutableWorkflow.Execute or a helper split off it (single call site).
+func (c *Ctx) isExecuteOrOwned(fn *ssa.Function) bool {
+	for _, ex := range c.ifaceMethodImpls(pkgWorkflow, "ExecutableWorkflow", "Execute") {
+		if ownedBy(fn, ex) {
+			return true
+		}
+	}
+	return false
 }
